@@ -43,6 +43,13 @@ package composite
 //@ site (*composite.Unstructured).SetConditions(_, $cs...) as SetConditions-fatal
 //@   where len($cs) == 1 && $cs[0].Reason == reasonFatalError
 //@   assert [C05:fatal-marks-unknown] $cs[0].Status == "Unknown" && !xpv1.IsSystemConditionType($cs[0].Type)
+//@   update marked = add(marked, $cs[0].Type)
+// after a fatal composition error every custom condition the XR carries that this reconcile's
+// pipeline did not re-assert is marked Unknown - whether or not it is also copied to the claim
+//@ ghost marked strset = emptystrset
+//@ loop range xr.GetConditions()
+//@   invariant [C05:custom-conditions-not-reasserted-are-marked-unknown] forall j :: 0 <= j && j < done ==>
+//@        (xpv1.IsSystemConditionType(ranged[j].Type) || meta.conditionTypesSeen[ranged[j].Type] || (ranged[j].Type in marked))
 
 //@ func (*composite.Reconciler).handleCommonCompositionResult
 //@ props C05
@@ -167,6 +174,14 @@ package composite
 //@   assert [C01:refs-update-is-the-xr] $o == xr
 //@   assert [C01:persisted-xr-carries-the-references-just-built] xr.GetResourceReferences() == refs
 //@   update refsPersisted = err == nil
+// composed resources are written through the applicator under the must-be-controllable-by-the-XR
+// option and by no other call: no direct create, patch or delete in the composer itself
+//@ optional site (client.Writer).Patch(_, _, $o, $p, $po...) as direct-patch
+//@   assert [C02:composed-resources-are-written-only-under-the-controllability-check] false
+//@ optional site (client.Writer).Create(_, _, $o, $co...) as direct-create
+//@   assert [C02:composed-resources-are-written-only-under-the-controllability-check] false
+//@ optional site (client.Writer).Delete(_, _, $o, $do...) as direct-delete
+//@   assert [C02:composed-resources-are-written-only-under-the-controllability-check] false
 //@ site (resource.Applicator).Apply(_, _, $o, $opts...) as Apply-composed
 //@   where typeis($o, *composed.Unstructured)
 //@   assert [C01:refs-persisted-before-apply] refsPersisted
@@ -404,8 +419,9 @@ package composite
 //@ ensures [C10:success-only-if-every-patch-applied] err == nil ==> !patchFailed
 
 //@ func composite.RenderComposedResourceMetadata
-//@ props C10
+//@ props C10 C01
 //@ sweep
+//@ ensures [C01:rendering-metadata-keeps-the-resources-name] cd.GetName() == old(cd.GetName()) && cd.GetNamespace() == old(cd.GetNamespace())
 
 
 // C12 (XR side): with the Manual policy and a revision already referenced, the XR fetches that
@@ -541,6 +557,7 @@ package composite
 //@   assert [C04:final-desired-state-is-the-last-steps-output] steps > 0 ==> (($prevRsp != nil ==> $s == $prevRsp.Desired) && ($prevRsp == nil ==> $s == nil))
 //@ site (names.NameGenerator).GenerateName(_, _, $cd)
 //@   assert [C01:name-generated-only-for-a-resource-without-one] $cd.GetName() == ""
+//@   assert [C01:an-observed-resource-is-never-given-a-new-name] !(name in $observed) || $observed[name].Resource.GetName() == ""
 
 // C03 / C02 (garbage collection is exact): the resources that are relabelled and deleted are
 // exactly observed resources whose name is absent from the desired state, each only if it has no
